@@ -1526,21 +1526,61 @@ def format_template(source: str, template_match: NamedTuple, **callables) -> str
     if unfilled_wildcards:
         raise ValueError(f"Unfilled wildcards found in source: {unfilled_wildcards}")
 
-    # All wildcards are filled in one pass, so that code that is filled in is not searched for
-    # wildcards, in case it contains something like "{{name}}" itself.
-    source = re.sub(
-        r"\{\{(\w+)\}\}", lambda match: unparse(template_match_asdict[match.group(1)]), source
+    # All wildcards and callable slots are filled in one pass, so that code that is filled in is
+    # not searched for them, in case it contains something like "{{name}}" itself.
+    atoms = (
+        ast.Name,
+        ast.Constant,
+        ast.Call,
+        ast.Attribute,
+        ast.Subscript,
+        ast.List,
+        ast.Dict,
+        ast.Set,
+        ast.ListComp,
+        ast.DictComp,
+        ast.SetComp,
+        ast.JoinedStr,
     )
 
-    for callable_slot in re.finditer(r"\{\{\w+\((\w+,?)+\)\}\}", source):
-        callable_slot_text = callable_slot.group()
-        callable_name, *arg_names = re.findall(r"\w+", callable_slot_text)
-        callable_result = callables[callable_name](
-            *[template_match_asdict[name] for name in arg_names]
-        )
-        source = source.replace(callable_slot_text, callable_result)
+    def fill(parenthesize: Tuple[type, ...]) -> str:
+        def slot_code(match: re.Match) -> str:
+            name, *arg_names = re.findall(r"\w+", match.group())
+            if match.group(2) is not None:
+                return callables[name](*[template_match_asdict[arg] for arg in arg_names])
+            value = template_match_asdict[name]
+            if isinstance(value, parenthesize) and not isinstance(value, ast.Starred):
+                return f"({unparse(value)})"
+            return unparse(value)
 
-    return source
+        return re.sub(r"\{\{(\w+)(\((\w+,?)+\))?\}\}", slot_code, source)
+
+    def tree(code: str) -> str | None:
+        try:
+            return ast.dump(ast.parse(textwrap.dedent(code)))
+        except SyntaxError:
+            return None
+
+    filled = fill(parenthesize=())
+    expressions = [value for value in template_match_asdict.values() if isinstance(value, ast.expr)]
+    if not expressions:
+        return filled
+
+    # An expression that is pasted next to an operator may be torn apart by precedence, like
+    # a + b in "{{x}} * 2". In that case the expressions are filled in with parentheses around
+    # them: first only around those that are not atoms, if that is not enough around all.
+    filled_tree = tree(filled)
+    non_atoms = tuple({type(value) for value in expressions if not isinstance(value, atoms)})
+    for parenthesize in (non_atoms, (ast.expr,)):
+        parenthesized = fill(parenthesize)
+        parenthesized_tree = tree(parenthesized)
+        if parenthesized_tree is None:
+            continue
+        if parenthesized_tree == filled_tree:
+            return filled
+        return parenthesized
+
+    return filled
 
 
 @functools.lru_cache(maxsize=1)
